@@ -789,6 +789,29 @@ func run(c *fw.Ctx, idx int) {
 			c.Journal("%s", w.trace[len(w.trace)-1])
 			w.members[victim].peer.Node.Close()
 			w.members[victim].alive = false
+			// while it is down (a quorum remains) the others may be asked to add it again,
+			// or to remove a peer that is not a member: both stay harmless no-ops
+			if len(in) >= 3 && r.Intn(2) == 0 {
+				up := w.aliveIn()
+				from := up[r.Intn(len(up))]
+				what := r.Pick("add-present-down", "remove-absent")
+				if m := w.members[4]; m != nil && m.in {
+					what = "add-present-down" // that identity is a member in this history
+				}
+				var err error
+				actx, cancel := context.WithTimeout(ctx, 30*time.Second)
+				if what == "add-present-down" {
+					_, err = w.members[from].peer.Node.Cluster.PeerAdd(actx, w.id(victim))
+				} else {
+					err = w.members[from].peer.Node.Cluster.PeerRemove(actx, gen.Peer(w.base+4))
+				}
+				cancel()
+				w.trace = append(w.trace, fmt.Sprintf("  (while p%d is down: %s at p%d -> err=%v)", victim, what, from, err != nil))
+				c.Eval(fmt.Sprintf("%s/n%d/err=%v", what, len(in), err != nil))
+				if ok, views := w.agree(ctx, w.wantPeerset()); !ok {
+					w.fail("C17/"+what+"/peerset-changed", fmt.Sprintf("%s while member p%d was down changed the peerset reported by the running members", what, victim), views)
+				}
+			}
 			if err := w.prepare(ctx, victim, 0); err != nil {
 				c.Inconclusive("host: " + err.Error())
 				return
